@@ -80,6 +80,12 @@ def cache_keys(rep, rnd, n):
     for _ in range(n):
         name = b".".join(rnd.choice(pool) for _ in range(rnd.randint(1, 4))) if rnd.random() < 0.8 else bytes(rnd.randrange(1, 256) for _ in range(rnd.randint(1, 40))).replace(b"\n", b"n")
         cases.append((rnd.choice(["counter", "gauge", "observer"]), name))
+    # reloads in between: the mapper must reset its cache once per successful load and leave it alone on a failed one
+    good = [b"mappings:\n- match: \"zz.*\"\n  name: \"zz_$1\"\n", b"mappings:\n- match: \"zz.*\"\n  name: \"other_$1\"\n- match: \"a.*\"\n  name: \"a\"\n", b"mappings: []\n"]
+    badc = [b"mappings:\n- match: \"a..b\"\n  name: \"x\"\n", b"mappings:\n- match: \"a.*\"\n  name: \"0-bad name\"\n", b"mappings: [\n"]
+    for k in range(0, len(cases), max(1, len(cases) // 12)):
+        cases.insert(k, ("RELOAD", rnd.choice(good if rnd.random() < 0.6 else badc)))
+    cases.append(("RELOAD", good[0]))
     d = vf.tmpdir("C13")
     cf = f"{d}/cachekeys.cases"
     vf.write_lines(cf, [f"{t} {vf.hexs(nm)}" for t, nm in cases])
@@ -89,6 +95,11 @@ def cache_keys(rep, rnd, n):
     bad = 0
     seen = {}
     for (t, nm), i, m in zip(cases, impl, model):
+        if t == "RELOAD":
+            want = "RELOAD ok=true resets=1" if nm in good else "RELOAD ok=false resets=0"
+            if i != want:
+                rep.violation("a (re)load does not reset the mapping cache exactly once when it succeeds and not at all when it fails", dict(yaml=nm.decode(), observed=i, expected=want))
+            continue
         if i != m:
             bad += 1
             if len(rep.violations) < 5:
@@ -160,4 +171,6 @@ def _run(rep, tier, seed, replay):
 def run(rep, tier, seed, replay):
     _run(rep, tier, seed, replay)
     if not replay:
+        genproof.reload_count(rep, "C13", tier, unordered=False)
         genproof.clock_obligation(rep, "C13_clock.v", "the mapper or one of its caches asks the clock something (entries that age, time-based decisions), while a lookup is a function of the configuration, the name, the type and the cache contents", ('pkg/mapper', 'pkg/mappercache'))
+        genproof.digest_obligation(rep, "cache entries are filed under a digest of the (type, name) key")
